@@ -78,6 +78,29 @@ prop("C17", engine="eval", prefixes=["C17."], level="model_checking",
      quick=dict(traces=96, nops=25), thorough=dict(traces=2400, nops=40))
 
 
+INH_ASSUME = EVAL_COMMON_ASSUME + [
+    "definitions are compared through the public API projection (space.cells / _own_refs / bases / "
+    "_direct_bases / dir(), ReferenceProxy.refmode) after every operation",
+    "a handle counts as dead only when every probed attribute raises DeletedObjectError",
+]
+prop("C03", engine="inh", worker="make_inh_trace", prefixes=["C03."], level="model_checking",
+     jobs=lambda tier: [("inherit", dict()), ("delete", dict())],
+     quick=dict(traces=160, nops=25), thorough=dict(traces=4000, nops=40),
+     also=["C02.NoStale", "C01.Transparent"])
+prop("C10", engine="inh", worker="make_inh_trace", prefixes=["C10."], level="model_checking",
+     jobs=lambda tier: [("refmode", dict()), ("inherit", dict())],
+     quick=dict(traces=160, nops=25), thorough=dict(traces=4000, nops=40))
+prop("C11", engine="inh", worker="make_inh_trace", prefixes=["C11."], level="model_checking",
+     jobs=lambda tier: [("names", dict()), ("inherit", dict())],
+     quick=dict(traces=160, nops=25), thorough=dict(traces=4000, nops=40))
+prop("C12", engine="inh", worker="make_inh_trace", prefixes=["C12."], level="model_checking",
+     jobs=lambda tier: [("names", dict()), ("inherit", dict())],
+     quick=dict(traces=160, nops=25), thorough=dict(traces=4000, nops=40))
+prop("C13", engine="inh", worker="make_inh_trace", prefixes=["C13."], level="model_checking",
+     jobs=lambda tier: [("delete", dict()), ("inherit", dict())],
+     quick=dict(traces=160, nops=25), thorough=dict(traces=4000, nops=40))
+
+
 # ---------------------------------------------------------------------------
 def belongs(cfg, label):
     lab = label[3:] if label.startswith("KF:") else label
@@ -92,8 +115,11 @@ def save_replay(pid, tr):
     ops = [{k: v for k, v in e.items() if k not in ("post", "fx", "res", "tb", "errtype", "raw")}
            for e in tr["ev"]]
     with open(path, "w") as f:
-        json.dump({"property": pid, "world": "eval", "init": tr["hdr"]["init"], "ops": ops,
-                   "opts": {k: tr["hdr"][k] for k in ("maxdepth", "recalc") if k in tr["hdr"]},
+        opts = {k: tr["hdr"][k] for k in ("maxdepth", "recalc", "checkdefs") if k in tr["hdr"]}
+        if tr["hdr"].get("world") == "inh":
+            opts["handles"] = True
+        json.dump({"property": pid, "world": tr["hdr"].get("world", "eval"),
+                   "init": tr["hdr"]["init"], "ops": ops, "opts": opts,
                    "seed": tr["hdr"].get("seed"), "profile": tr["hdr"].get("profile")}, f)
     return path
 
@@ -163,6 +189,48 @@ def corrupt(pid, tr, rng):
                 post["data"].append([node, 5])
                 post["tgn"].append(node)
                 return t, "C09.UncachedHoldNothing"
+        if pid in ("C03", "C10", "C11", "C12") and "defs" in post and e["op"] != "call":
+            pd = post["defs"]
+            if pid == "C03":
+                rows = [(p, cs) for p, cs in pd["cells"] if any(c["derived"] for c in cs.values())]
+                if rows:
+                    p, cs = rng.choice(rows)
+                    c = rng.choice([k for k, v in cs.items() if v["derived"]])
+                    del cs[c]
+                    for row in pd["dir"]:
+                        if row[0] == p:
+                            row[1].remove(c)
+                    return t, "C03.DerivedCellsNames"
+            if pid == "C10":
+                rows = [(p, n, r) for p, rs in pd["refs"] for n, r in rs.items()
+                        if r["derived"] and r["v"][0] in ("sp", "ce") and r["mode"] != "absolute"
+                        and r["v"][1] == p]
+                if rows:
+                    p, n, r = rng.choice(rows)
+                    r["v"] = ["sp", ["ZZ"], [], ""]
+                    return t, "C10.ModeBinding"
+            if pid == "C11" and e["res"] == "rejected" and pd["cells"]:
+                rows = [cs for p, cs in pd["cells"] if cs]
+                if rows:
+                    cs = rng.choice(rows)
+                    c = rng.choice(list(cs))
+                    cs[c]["cached"] = not cs[c]["cached"]
+                    return t, "C11.RejectedUnchanged"
+            if pid == "C12":
+                rows = [(p, cs) for p, cs in pd["cells"] if cs]
+                if rows:
+                    p, cs = rng.choice(rows)
+                    for row in pd["refs"]:
+                        if row[0] == p:
+                            row[1][rng.choice(list(cs))] = {"v": ["int", 1, [], ""], "mode": "auto",
+                                                            "derived": False}
+                            return t, "C12.NamesUnique"
+        if pid == "C13" and post.get("handles"):
+            dead = [h for h in post["handles"] if h[2] == "dead"]
+            if dead:
+                h = rng.choice(dead)
+                h[2] = "orphan"
+                return t, "C13.DeletedHandlesDead"
         if pid == "C17" and e.get("tb") and len(e["tb"]) >= 1:
             e["tb"].pop(0)
             return t, "C17.TracebackLength"
@@ -259,14 +327,16 @@ def run_eval(pid, tier, seed):
         profile, opts = jobspecs[i % len(jobspecs)]
         jobs.append((seed * 100003 + i, profile, size["nops"], opts))
     t0 = time.time()
-    traces = pl.produce(pl.make_eval_trace, jobs, procs=NCPU)
+    worker = getattr(pl, cfg.get("worker", "make_eval_trace"))
+    traces = pl.produce(worker, jobs, procs=NCPU)
     t_prod = time.time() - t0
     verdicts, stats = pl.judge(traces, batch_size=max(4, min(40, n // NCPU + 1)), procs=NCPU)
     n_random = len(traces)
     mc, mtraces, mverdicts = run_mc(cfg, tier, seed)
     traces = traces + mtraces
     verdicts = verdicts + mverdicts
-    res = {"level": cfg["level"], "violations": [], "assumptions": list(EVAL_COMMON_ASSUME)}
+    res = {"level": cfg["level"], "violations": [],
+           "assumptions": list(INH_ASSUME if cfg["engine"] == "inh" else EVAL_COMMON_ASSUME)}
     # machinery sanity: every trace consumed to its end
     for tr, v in zip(traces, verdicts):
         if v["matched"] != v["total"]:
@@ -344,4 +414,4 @@ def replay(pid, path):
     return res
 
 
-ENGINES = {"eval": run_eval}
+ENGINES = {"eval": run_eval, "inh": run_eval}
